@@ -12,6 +12,7 @@ CONSTANTS
  FixMonotone = TRUE
  FixReadOrder = TRUE
  FixRange = TRUE
+ FixIndexSearch = TRUE
  FixValidate = TRUE
  DevNoWait = TRUE
  DevCommitBeforeIndex = FALSE
